@@ -74,3 +74,18 @@ def explore(ctx, n, run_once, max_preempt=2, max_runs=2000, max_seconds=20.0):
     if exhausted:
       ctx.count('systematic_schedules_in_exhausted_scenarios', runs)
   return runs, exhausted
+
+
+def run_case(ctx, n, sys_cfg, scenario):
+  """the first sys_cfg[tier][0] case numbers of a run are explored systematically, the rest are sampled as before.
+  sys_cfg[tier] = (systematic cases, preemption bound, schedule cap, seconds cap per scenario)"""
+  k = sys_cfg[ctx.tier]
+  if n < k[0]:
+    explore(ctx, n, scenario, *k[1:])
+  else:
+    scenario(ctx, n)
+
+
+RULE_TEXT = ('The first cases of every run are SYSTEMATIC (vt/sysx.py): for a small scenario (2 threads, short plans) EVERY schedule with at '
+             'most %s preemptions (thorough: %s) is enumerated depth-first - switches at blocking points and thread ends are free and all '
+             'explored; counters systematic_* report the schedules run and how many scenarios were enumerated completely within the bound. ')
